@@ -1055,6 +1055,29 @@ func (f *fn) define(lhs, rhs []ast.Expr, at ast.Stmt) *Stmt {
 			f.noteMade(lhs[i], rhs[i])
 			r = seq(r, f.assignTo(lhs[i], rhs[i]))
 		}
+		// b := x == nil / b := x != nil with a fresh b: b is a guard on x's kind
+		if as, isAssign := at.(*ast.AssignStmt); isAssign && as.Tok == token.DEFINE && len(lhs) == 1 {
+			if be, ok := ast.Unparen(rhs[0]).(*ast.BinaryExpr); ok && (be.Op == token.EQL || be.Op == token.NEQ) {
+				x := be.X
+				if f.isNil(be.X) {
+					x = be.Y
+				}
+				bv := f.varOf(lhs[0])
+				id, isId := lhs[0].(*ast.Ident)
+				if xv := f.varOf(x); xv != nil && bv != nil && isId && f.l.Info.Defs[id] == bv && (f.isNil(be.X) || f.isNil(be.Y)) {
+					if _, tr := f.vars[xv]; tr {
+						mask := kNil
+						if be.Op == token.NEQ {
+							mask = tokTop &^ kNil
+							if f.isPtr[xv] {
+								mask = kPtr
+							}
+						}
+						f.oks[bv] = okInfo{x: xv, mask: mask}
+					}
+				}
+			}
+		}
 		return r
 	case len(rhs) == 1 && len(lhs) == 2:
 		rh := ast.Unparen(rhs[0])
